@@ -57,7 +57,11 @@ def gen_group(rng, depth, inherited):
             cattrs = {"axis": n.upper()}
             if rng.random() < 0.4:
                 cattrs[rng.choice(["scale_factor", "add_offset"])] = rng.choice([0.5, 10.0])
-            vars_.append((n, rng.choice(["f8", "f8", "f4", "i4", "i2"]), [n], cattrs, rng.random() < 0.3))
+            # a variable named like a dimension is usually the coordinate over it - but the file may give it any dimensions
+            cdims = [n]
+            if rng.random() < 0.3:
+                cdims = rng.choice([[n, rng.choice(sorted(visible))], [rng.choice(sorted(visible))], [rng.choice(sorted(visible)), n], []])
+            vars_.append((n, rng.choice(["f8", "f8", "f4", "i4", "i2"]), cdims, cattrs, rng.random() < 0.3))
     subs = []
     if depth > 0:
         for g in rng.sample(GROUPS, rng.randint(0, 2)):
